@@ -50,6 +50,11 @@ def plan(tier, seed):
             tasks.append({"kind": "aff", "dt": dt, "tier": tier, "lo": lo, "hi": min(len(shapes), lo + CH)})
         for q in ALLQ:
             tasks.append({"kind": "loc", "dt": dt, "q": q, "tier": tier})
+            # size ladder: 2^20 .. 2^23+ elements, row counts that are not multiples of any block size
+            if dt == "float32" or tier == "thorough":
+                shapes_l = [[1031, 1024]] + ([[8193, 1024]] if (tier == "thorough" or q in ("qint8", "qfloat8_e4m3fn", "qint4")) else [])
+                for shp in shapes_l:
+                    tasks.append({"kind": "large", "dt": dt, "q": q, "tier": tier, "shape": shp})
     return tasks
 
 
@@ -314,9 +319,54 @@ def _loc_task(task, out):
                                           f"permutation: quantized values do not follow their row under {pname} (shape {shape} axis {axis} group_size {gs})"))
 
 
+def _large_task(task, out):
+    """Size ladder: the rows / groups of a large tensor quantize exactly as they do when quantized alone (locality as a
+    differential oracle: no hand-written expected value), and the chosen scales obey the range rules."""
+    dtname, qname = task["dt"], task["q"]
+    dt = num.DTYPES[dtname]
+    shape = tuple(task["shape"])
+    affine = qname in ("qint2", "qint4")
+    only = task.get("only")
+    C = wq.CLASSES
+    base = torch.stack([wq.gen_class(c, 16, dtname, k) for k, c in enumerate(C)])
+    for axis, gs in ((0, None), (0, 128)) if affine else ((0, None),):
+        c = [axis, gs]
+        if only and only != c:
+            continue
+        gid, pos, ng, gsz = wq.group_ids(shape, axis, gs)
+        x = base[gid % len(C), pos % 16].to(dt)
+        fields = {"kind": "large", "qtype": qname, "dtype": dtname, "axis": axis, "grouped": gs is not None}
+        case = dict(task, only=c)
+        out["evals"] += 1
+        out["calls"] += 1
+        out["points"] += 1
+        out["nontrivial"] += 1
+        try:
+            num.poison(x.numel() * x.element_size(), x.numel())
+            obs = _observe(x, qname, axis, gs)
+        except Exception as e:  # noqa
+            out["violations"].append(violation(PID, case, dict(fields, sub="raised"), f"raised: large {shape} {qname}: {type(e).__name__}: {e}"))
+            continue
+        R = shape[0]
+        for lo, hi in ((0, 7), (R // 2 - 3, R // 2 + 4), (R - 7, R), (R - 1, R)):
+            if hi - lo < 2 and not affine:
+                continue  # a single row would be quantized per-tensor
+            part = _observe(x[lo:hi].clone(), qname, axis, gs)
+            out["calls"] += 1
+            if not torch.equal(part, obs[:, lo:hi]):
+                out["violations"].append(violation(PID, case, dict(fields, sub="locality"), f"locality: rows {lo}:{hi} of a {shape} tensor quantize differently inside the large tensor than alone ({qname}, group_size {gs})"))
+                break
+        if not affine:
+            from optimum.quanto import quantize_weight
+
+            q = quantize_weight(x, num.qt(qname), axis)
+            for sub, msg in _sym_judge(x, q._scale, q.axis, 127.0, dtname):
+                out["violations"].append(violation(PID, case, dict(fields, sub=sub, target="quantize_weight"), f"{sub}: large {shape} {qname}: {msg}"))
+
+
 def _run(task):
     out = {"evals": 0, "nontrivial": 0, "points": 0, "calls": 0, "violations": [], "samples": [], "counters": {}}
-    {"sym": _sym_task, "aff": _aff_task, "loc": _loc_task}[task["kind"]](task, out)
+    {"sym": _sym_task, "aff": _aff_task, "loc": _loc_task, "large": _large_task}[task["kind"]](task, out)
     return out
 
 
